@@ -267,6 +267,7 @@ type World struct {
 	defs      []string // define-fun lines (spec functions), in order
 	defSeen   map[string]bool
 	nfresh    int
+	carrs     map[string]Term
 	ModPath   string
 	seqSorts  []Sort
 	Facts     []string
@@ -485,7 +486,43 @@ func (w *World) MkSeq(so Sort, base, off, ln Term) Term { return w.Mk(so, base, 
 
 // ConstArray returns ((as const (Array Int E)) v).
 func ConstArray(so Sort, v Term) Term {
-	return Term{S: fmt.Sprintf("((as const %s) %s)", so, v.S), Sort: so}
+	if isValueLiteral(v.S) || curWorld == nil {
+		return Term{S: fmt.Sprintf("((as const %s) %s)", so, v.S), Sort: so}
+	}
+	// cvc5 only accepts values in constant arrays: use a named array with a defining axiom instead
+	w := curWorld
+	key := "carr$" + string(so) + "$" + v.S
+	if t, ok := w.carrs[key]; ok {
+		return t
+	}
+	w.nfresh++
+	name := fmt.Sprintf("carr!%d", w.nfresh)
+	w.consts = append(w.consts, fmt.Sprintf("(declare-const %s %s)", name, so))
+	k, _ := arrayKV(so)
+	w.Facts = append([]string{fmt.Sprintf("(forall ((i %s)) (! (= (select %s i) %s) :pattern ((select %s i))))", k, name, v.S, name)}, w.Facts...)
+	for _, o := range w.Obls {
+		o.FactsN++
+	}
+	t := Term{S: name, Sort: so}
+	if w.carrs == nil {
+		w.carrs = map[string]Term{}
+	}
+	w.carrs[key] = t
+	return t
+}
+
+var curWorld *World
+
+func isValueLiteral(s string) bool {
+	if s == "true" || s == "false" {
+		return true
+	}
+	for _, c := range s {
+		if !(c >= '0' && c <= '9' || c == '.' || c == '(' || c == ')' || c == '-' || c == ' ' || c == '/') {
+			return false
+		}
+	}
+	return true
 }
 
 // SortOf maps a Go type to an SMT sort.
